@@ -305,6 +305,40 @@ type mark struct {
 type refEnc struct {
 	out   []byte
 	marks []mark
+	// out-of-domain injection: the viol-th constrained node (bool, 20-byte var-bytes address,
+	// range-checked number) is written with a value outside its domain
+	viol     int
+	seen     int
+	violSalt byte
+	injected bool
+}
+
+// inject reports whether the current constrained node is the one to spoil.
+func (e *refEnc) inject() bool {
+	e.seen++
+	if e.viol > 0 && e.seen == e.viol {
+		e.injected = true
+		return true
+	}
+	return false
+}
+
+func constrained(k *kind) bool {
+	if k.k == kBool || k.k == kAddrVB || (k.hasRange && (k.min > 0 || (k.k == kU8 && k.max < 0xFF))) {
+		return true
+	}
+	if k.elem != nil && constrained(k.elem) {
+		return true
+	}
+	if k.key != nil && constrained(k.key) {
+		return true
+	}
+	for _, f := range k.fields {
+		if constrained(f.k) {
+			return true
+		}
+	}
+	return false
 }
 
 func refVarUint(v uint64) []byte {
@@ -351,18 +385,43 @@ func (e *refEnc) vb(b []byte) {
 func (e *refEnc) enc(k *kind, g gv) {
 	switch k.k {
 	case kU8:
+		if k.hasRange && k.max < 0xFF && e.inject() {
+			e.out = append(e.out, byte(k.max)+1+e.violSalt%byte(0xFF-k.max))
+			return
+		}
 		e.out = append(e.out, byte(g.U))
 	case kVerDrop:
 		e.out = append(e.out, 0)
 	case kBool:
+		if e.inject() {
+			e.out = append(e.out, 2+e.violSalt%254)
+			return
+		}
 		e.out = append(e.out, byte(g.U&1))
 	case kU32:
 		e.out = append(e.out, le(g.U, 4)...)
 	case kU64, kI64:
 		e.out = append(e.out, le(g.U, 8)...)
 	case kVarU:
+		if k.hasRange && k.min > 0 && e.inject() {
+			e.out = append(e.out, refVarUint(uint64(e.violSalt)%k.min)...)
+			return
+		}
 		e.out = append(e.out, refVarUint(g.U)...)
-	case kBytes, kStr, kAddrVB, kOptTail:
+	case kAddrVB:
+		if e.inject() {
+			switch e.violSalt % 3 {
+			case 0:
+				e.vb(g.B[:19])
+			case 1:
+				e.vb(append(append([]byte(nil), g.B...), e.violSalt))
+			default:
+				e.vb(nil)
+			}
+			return
+		}
+		e.vb(g.B)
+	case kBytes, kStr, kOptTail:
 		e.vb(g.B)
 	case kBig:
 		e.vb(stripZeros(g.B))
